@@ -34,6 +34,11 @@ func optsDir() string {
 	return d
 }
 
+// cfgSpelling: how the configuration file is named on the command line. Go's flag package accepts all four.
+var cfgSpelling int
+
+var cfgSpellings = []string{"-config FILE", "-config=FILE", "--config FILE", "--config=FILE"}
+
 // runFlagSet runs the real option loading with the given environment, file content and arguments.
 func runFlagSet(env map[string]string, file string, args []string) (o *Options, err interface{}) {
 	for _, kv := range os.Environ() {
@@ -48,7 +53,16 @@ func runFlagSet(env map[string]string, file string, args []string) (o *Options, 
 	if file != "" {
 		p := filepath.Join(optsDir(), "vflow.conf")
 		os.WriteFile(p, []byte(file), 0644)
-		full = append(full, "-config", p)
+		switch cfgSpelling {
+		case 1:
+			full = append(full, "-config="+p)
+		case 2:
+			full = append(full, "--config", p)
+		case 3:
+			full = append(full, "--config="+p)
+		default:
+			full = append(full, "-config", p)
+		}
 	}
 	full = append(full, args...)
 	os.Args = full
@@ -134,11 +148,22 @@ func init() {
 func optsSingle(tier string) mck.Space {
 	ss := discover()
 	// per setting: subsets 0..7; for bools every assignment (<= 8) -> index space setting x subset x 8
-	dims := mck.Radix{uint64(len(ss)), 8, 8}
+	dims := mck.Radix{uint64(len(ss)), 8, 8, uint64(len(cfgSpellings))}
 	return mck.FuncSpace{N: dims.Size(), F: func(idx uint64, c *mck.Ctx) {
 		d := dims.Digits(idx)
 		s := ss[d[0]]
 		subset, asg := d[1], d[2]
+		// the spelling of -config matters only where a file is given; flags are spelled with one or two dashes alike
+		if d[3] != 0 && subset&2 == 0 && d[0]%2 != 0 {
+			c.Skip()
+			return
+		}
+		cfgSpelling = d[3]
+		defer func() { cfgSpelling = 0 }()
+		dash := "-"
+		if d[3] >= 2 {
+			dash = "--"
+		}
 		if s.flag == "" && subset&4 != 0 {
 			c.Violation("opts:no-flag:"+s.yaml, "setting has no command-line flag", nil)
 			return
@@ -177,14 +202,14 @@ func optsSingle(tier string) mck.Space {
 			case 1:
 				file = yamlLine(s, v)
 			case 2:
-				args = append(args, "-"+s.flag+"="+v)
+				args = append(args, dash+s.flag+"="+v)
 			}
 		}
 		if subset&2 == 0 && d[0]%2 == 0 {
 			file = "# no keys\n" // a config file that lacks the key
 		}
 		desc := func() interface{} {
-			return map[string]interface{}{"setting": s.yaml, "field": s.name, "flag": s.flag, "env": env, "file": file, "args": args}
+			return map[string]interface{}{"setting": s.yaml, "field": s.name, "flag": s.flag, "env": env, "file": file, "args": args, "config_given_as": cfgSpellings[d[3]]}
 		}
 		c.SetCase(desc)
 		base := NewOptions()
@@ -201,7 +226,7 @@ func optsSingle(tier string) mck.Space {
 			return
 		}
 		got := fieldVal(o, s.field)
-		c.Nontrivial(mck.HashStr(s.yaml, fmt.Sprint(subset, asg)))
+		c.Nontrivial(mck.HashStr(s.yaml, fmt.Sprint(subset, asg, d[3])))
 		c.Outcome("from-" + from)
 		if got != want {
 			var have []string
@@ -212,7 +237,11 @@ func optsSingle(tier string) mck.Space {
 			}
 			dd := desc().(map[string]interface{})
 			dd["got"], dd["want"], dd["want_from"] = got, want, from
-			c.Violation(fmt.Sprintf("opts:precedence:%s:given[%s]", s.kind, strings.Join(have, "+")), fmt.Sprintf("%s = %q, expected %q (from %s)", s.yaml, got, want, from), dd)
+			sp := ""
+			if d[3] != 0 {
+				sp = ":" + cfgSpellings[d[3]][:strings.Index(cfgSpellings[d[3]], "g")+1] + map[bool]string{true: "=", false: " "}[d[3]%2 == 1] + "FILE"
+			}
+			c.Violation(fmt.Sprintf("opts:precedence:%s:given[%s]%s", s.kind, strings.Join(have, "+"), sp), fmt.Sprintf("%s = %q, expected %q (from %s; config given as %s)", s.yaml, got, want, from, cfgSpellings[d[3]]), dd)
 		}
 		// every OTHER setting keeps its default
 		for _, t := range ss {
